@@ -411,3 +411,7 @@ def run(chk, repo):
     rule_thread(chk, repo)
     rule_cleave(chk, repo)
     rule_oneshot(chk, repo)
+    # ------------------------------------------------------------------ shared: option plumbing by name
+    from rules.shared import optname
+    chk.clauses.append('C10.g (shared R-THREAD) an option value bound to a name that is itself a CLI option carries that very option')
+    optname(chk, repo, 'C10.g', ['cli.generate_index', 'cli.update_index'], floor=0)
